@@ -23,7 +23,7 @@ func init() {
 			r.borrow("C08", func() { ruleD1(r) })    // a late reply for a requester that gave up must not wedge the request router
 			r.borrow("C11", func() { ruleC11M7(r) }) // a rejected frame must not stay in the pooled buffer and be parsed in front of the next one
 			ruleC12D7(r)
-			ruleNoHoles(r, "D8", "/encoding", "/message")
+			ruleNoHoles(r, "D8", "/encoding", "/message", "/iscp", "/wire", "/transport", "/internal")
 			ruleNoSwallowedErrors(r, "D6", 10, true, "/encoding", "/encoding/json", "/encoding/protobuf", "/encoding/convert")
 			if pk := r.P.ByPath[modPath+"/encoding/convert"]; pk != nil {
 				ruleC11M12(r, pk)
